@@ -388,7 +388,7 @@ func runC03(w *mon.W) {
 		case 0:
 			origin = "image of genbank.Parse over a generated file"
 			file := gen.WriteGB(rec, gen.RandLayout(r))
-			if p := mon.Try(func() { x = genbank.Parse([]byte(file)) }); p != "" {
+			if p := mon.Try(func() { buf := []byte(file); x = genbank.Parse(buf); scribble(buf) }); p != "" {
 				// C01's subject
 				w.Add("parse_panics_skipped", 1)
 				w.End()
